@@ -795,7 +795,11 @@ def compare_with_model(all_runs, R):
             # is the implementation's): compare the raw columns instead
             mr = [dict((n, tuple(dd)) for n, c, dd in m['P'])]
             ir = [dict((n, tuple(dd)) for n, c, dd in after['P'])]
-        same_l1 = (bag(mr) == bag(ir)
+        def local_first(d):
+            t = [x for n_, c_, dd in d['P'] if n_ == 'tag' for x in dd]
+            k = sum(1 for x in t if x == 0)
+            return all(x == 0 for x in t[:k]) and d['nreal'] == k
+        same_l1 = (bag(mr) == bag(ir) and local_first(m) == local_first(after)
                    and schema(m) == schema(after) and m['nreal'] == after['nreal']
                    and sorted(m['K']) == sorted(after['K'])
                    and set(m['out']) == set(after['out']))
@@ -924,7 +928,7 @@ def main():
         _, _, _, _, failed = run_sequence(case['seed'], 0, R, 'quick', ops_in=case['ops'], validate=True)
         print(json.dumps(R.d['property_failures'][:3], indent=1)[:3000])
         sys.exit(1 if R.d['property_failures'] else 0)
-    nseq, length = (40, 40) if a.tier == 'quick' else (300, 150)
+    nseq, length = (150, 50) if a.tier == "quick" else (1500, 120)
     runs = []
     for c in CORPUS:
         ops, lines, ia, bf, failed = run_sequence(0, 0, R, a.tier, ops_in=c)
